@@ -205,7 +205,8 @@ func (p propC19) Gen(r *simrt.Rand, idx int, tier string) any {
 	// arbitrary key bytes (the inline client takes any string)
 	odd := []string{string([]byte{0xff, 0xfe, 0x00, 0x01}), "\x00", "a\nb", strings.Repeat("\xf0\x9f\x92\xa9", 3),
 		strings.Repeat("k", 65001), strings.Repeat("long/", 20000), // the inline client takes keys of any length
-		string(make([]byte, 16)), "00000000-0000-0000-0000-000000000000"} // keys that look like ids (the raw and the text form of the main id)
+		string(make([]byte, 16)), "00000000-0000-0000-0000-000000000000", // keys that look like ids (the raw and the text form of the main id)
+		strings.Repeat("m", 3<<19), strings.Repeat("big/", 3<<18)} // 1.5 and 3 MiB: records that Badger keeps in its value log, not in the tree
 	c.Keys = append(c.Keys, odd[r.Intn(len(odd))])
 	for i := range c.Ops {
 		if c.Ops[i].K == "reopen" {
